@@ -2,6 +2,7 @@
 from pyvc.report import Report
 from . import wiring
 
+from .common import dependency_layer
 
 def run(tier, seed):
     rep = Report('C20', tier, seed, 'proof')
@@ -18,4 +19,5 @@ def run(tier, seed):
     rep.assumptions.append('the composite grammar C20_GRAMMAR exercises every expression class and option that allocates names (checked against the class table of wiring.visit_reaches_every_child)')
     rep.assumptions.append('names violating disjointness on the unchanged tree are inherent in the naming scheme (a repair renames every temporary and regenerates parser.py): '
                            'listed one by one in known_findings.json; any NEW colliding name is a violation')
+    dependency_layer(rep, tier)
     return rep.finish()
